@@ -33,6 +33,7 @@ ASSUMPTIONS = [
 
 SM, SC = "smC16", "base"
 _shared = {}
+_BASE_CONSTANTS = {"k": 2.0}
 
 
 def _mk_model():
@@ -60,6 +61,12 @@ def factory_for(style, made):
             # the documented one-liner: scenario manager and a scenario "base" are created by bptk
             b.register_model(_mk_model(), scenario_manager=SM)
             b.register_scenarios({"other": {"constants": {"k": 5.0}}}, SM)
+            made.append(b)
+            return b
+        if style == "base-constants":
+            # the factory hands the same base-constants dictionary to every bptk it builds (bptk only reads it)
+            b.register_scenario_manager({SM: {"model": _mk_model(), "base_constants": _BASE_CONSTANTS}})
+            b.register_scenarios({SC: {}, "other": {"constants": {"k": 5.0}}}, SM)
             made.append(b)
             return b
         if style == "fresh":
@@ -253,7 +260,7 @@ def case_strategy(isolated=False):
     @st.composite
     def build(draw):
         k = draw(st.integers(2, 3))
-        style = draw(st.sampled_from(["fresh", "shared-base", "register-model"]))
+        style = draw(st.sampled_from(["fresh", "shared-base", "register-model", "base-constants"]))
         start = draw(st.sampled_from(["single", "single", "batch"]))
         full = lambda **kw: dict({"weeks": 0, "days": 0, "hours": 0, "minutes": 0, "seconds": 0, "milliseconds": 0, "microseconds": 0}, **kw)
         timeouts = [draw(st.sampled_from([{"hours": 1}, {"minutes": 5}, {"seconds": 30}, {"milliseconds": 500},
